@@ -183,8 +183,11 @@ def runs(ck):
       continue
     for k, v in r["worst"].items():
       if v or not k.endswith("unsharded") or o["mode"] == "shard":
-        ck.calib(f"{k}[{variant}]", v, {"stats_xD": 1e-5, "roots_xD": 1e-3, "upd_xD": 1e-3,
-                                        "stats_shard_vs_unsharded": 1e-4, "roots_shard_vs_unsharded": 5e-3}[k])
+        tol = {"stats_xD": 1e-5, "roots_xD": 1e-3, "upd_xD": 1e-3,
+               "stats_shard_vs_unsharded": 1e-4, "roots_shard_vs_unsharded": 5e-3}[k]
+        if k == "roots_xD" and o["compression_rank"]:
+          tol = 5e-3                 # devices_run.ROOTS_XD_COMPRESSED
+        ck.calib(f"{k}[{variant}]", v, tol)
     if r["mismatches"]:
       m = r["mismatches"][0]
       ck.violation(f"ds|{variant}|{m['clause']}",
@@ -246,5 +249,6 @@ def run(ck):
             "real all_gather / mesh partitioning); a D-device pmap inside a process with Dmax forced devices "
             "is the program a process with exactly D devices would run")
   ck.assume("different D = different XLA programs: cross-D comparison within 1e-5 (statistics) / 1e-3 (updates, "
-            "dense denotation of stored roots); devices of ONE run are compared bytewise")
+            "dense denotation of stored roots; 5e-3 for compressed roots, measured worst 4e-5); devices of ONE run "
+            "are compared bytewise")
   ck.assume("parameter names are chosen so that the pytree order equals the spec's tree order")
